@@ -86,6 +86,9 @@ pub struct Ctx<'t> {
     pub verbose: bool,
     /// a `Drop` impl panicked during the run: the statement allows values to be lost then
     pub drop_panicked: bool,
+    /// the arena the vectors were created from is currently claimed (C14): every request for memory through
+    /// the vectors' allocator handle must fail, by `Err` or by the unwinding "bump allocator is claimed" panic
+    pub claimed: bool,
 }
 
 /// Capacity promise of `with_capacity` / `reserve` (C08).
@@ -121,6 +124,7 @@ impl<'t> Ctx<'t> {
             faulty,
             verbose: std::env::var_os("SIM_VERBOSE").is_some(),
             drop_panicked: false,
+            claimed: false,
         }
     }
 
@@ -185,6 +189,12 @@ impl<'t> Ctx<'t> {
                     Outcome::Injected
                 }
                 Caught::Harness(m) => harness_bug(m),
+                Caught::Library(m) if self.claimed && m.contains("bump allocator is claimed") => {
+                    // the documented report of a claimed arena by a panicking method; same obligations as a clean
+                    // failure: nothing may have changed
+                    self.stats.probe("claim.request_unwound_claimed");
+                    Outcome::AllocFailed
+                }
                 Caught::Library(m) => Outcome::LibPanic(m),
             },
         }
@@ -837,11 +847,23 @@ pub fn exec_common<E: Elem, V: VecApi<E>>(ctx: &mut Ctx, v: &mut V, m: &mut Vec<
                 // an invalid index must be reported by a panic even in the try_ form (as std does)
                 ctx.viol("C08/panic-mismatch", format!("{what}: invalid arguments produced an allocation error instead of a panic"));
             }
+            if ctx.claimed && k == K_EXTEND && Hint::from(op.a[1]) != Hint::Exact {
+                // `Extend::extend` reserves for the announced lower bound and then pushes one by one; with a size hint
+                // that is too low the request for more memory comes after some elements were pushed (same as std's
+                // Vec when an iterator panics half-way): old contents + a prefix of the new elements
+                let got = vals_of(v.slice());
+                let keep = &expect[..got.len().min(expect.len())];
+                if (ctx.on.c07 || ctx.on.c08 || ctx.on.c14) && (got.len() < len || got != keep) {
+                    let class = if ctx.on.c14 { "C14/collection-changed-while-claimed" } else if ctx.on.c07 { "C07/collection-changed-on-failure" } else { "C08/collection-changed-on-failure" };
+                    ctx.viol(class, format!("{what} on a claimed arena failed and left {} elements that are not old contents + a prefix of the new ones", got.len()));
+                }
+                *m = got;
+            } else
             // the collection must be exactly as before
-            if ctx.on.c07 || ctx.on.c08 {
+            if ctx.on.c07 || ctx.on.c08 || ctx.on.c14 {
                 let got = vals_of(v.slice());
                 if got != *m {
-                    let class = if ctx.on.c07 { "C07/collection-changed-on-failure" } else { "C08/collection-changed-on-failure" };
+                    let class = if ctx.claimed && ctx.on.c14 { "C14/collection-changed-while-claimed" } else if ctx.on.c07 { "C07/collection-changed-on-failure" } else { "C08/collection-changed-on-failure" };
                     ctx.viol(class, format!("{what} failed but the vector changed: {} -> {} elements", m.len(), got.len()));
                     resync(ctx, v, m);
                 }
